@@ -128,21 +128,25 @@ CLAIMED = {
          "C13_fault_reported / C13_reconnect_never_lost / C13_reconnect_progress / C13_retry_delay / C13_retry_continues / C13_backoff / "
          "C13_connect_succeeds / C13_connect_finishes / C13_single_receive_path / C13_never_monopolises hold for every client kind, every reachable "
          "state and every run of any length of ClientLTS.v with the three repairs on; the defects F-eofspin and F-connect-lost are runs of the "
-         "same model with the repair off (C13_eofspin_as_it_was, C13_connect_lost_as_it_was). PARTIAL: safety only - 'eventually CONNECTED' "
-         "under a fair scheduler and an accepting gateway is not proved; what is proved is: a reconnect is always pending, its machinery is "
-         "never stuck, delays are in [0.5 s, 10 s] growing and capped, bursts without yielding are bounded by buffered bytes / queued "
-         "messages. Delivery after recovery is C12 on the new reader.",
+         "same model with the repair off (C13_eofspin_as_it_was, C13_connect_lost_as_it_was). PARTIAL: inevitability of 'eventually CONNECTED' needs "
+         "scheduler fairness and an accepting gateway and is not proved; proved instead: a reconnect is always pending after a fault "
+         "(C13_reconnect_never_lost), its machinery is never stuck (C13_reconnect_progress), and from every such non-busy state a run of at "
+         "most 5 connect-machinery steps + 'attempt accepted' reaches CONNECTED with a fresh receive task (C13_recovery_possible); delays in "
+         "[0.5 s, 10 s] growing and capped; bursts without yielding bounded by buffered bytes / queued messages. Delivery after recovery is "
+         "C12 on the new reader.",
          "Trusted: Coq kernel + vm_compute; the hand model ClientLTS.v, tied by ~1200 (quick) / ~4400 (thorough) real sessions whose labelled "
          "traces with state snapshots the kernel accepts; which awaits suspend, FIFO ready queue, cancellation (CPython 3.12 asyncio) "
-         "modelled not verified; tools/vloop.py (virtual-time loop, fake transports, block -> label). Theorems closed under the global context.",
+         "modelled not verified; tools/vloop.py (virtual-time loop, fake transports, block -> label); failing attempts raise 8 exception "
+         "classes incl. OSError/gaierror/SerialException; well-framed undecodable frames in all four wire formats at every position. "
+         "Theorems closed under the global context.",
          "DESIGN.md §10.7"),
  "C14": ("Coq proof of inductive invariants of the same labelled transition system over ALL runs and schedules + kernel-evaluated acceptance of "
          "labelled traces of the four real clients with close() injected at every event-loop step x status callbacks that return/raise/are slow",
          "C14_closed_absorbing / C14_link_shut_current / C14_link_shut_new / C14_after_close_returned / C14_background_tasks_finish / "
          "C14_status_once_per_change / C14_status_trace_faithful / C14_status_trace_no_repeat / C14_callback_exception_harmless for every client "
-         "kind and every run; F-closerace is a run of the model with the repair off (C14_closerace_as_it_was). PARTIAL: (1) link shut up to a "
-         "serial port whose configuration drain() raised or is pending after close() (known finding close:link-open; full statement kept as "
-         "C14_link_shut_full); (2) after close() returned a receive task created by a connect() that was inside its status callback may exist "
+         "kind and every run; F-closerace is a run of the model with the repair off (C14_closerace_as_it_was). C14_link_shut_full is a THEOREM for the model with repair 7a732b1 (every connection obtained after "
+         "close() is closed once close() returned and the connect() in flight finished; C14_drainleak_as_it_was is the counter-run without "
+         "the repair). PARTIAL: (2) after close() returned a receive task created by a connect() that was inside its status callback may exist "
          "for one step (never reads); (3) send() coroutines are outside the termination measure; one close() call; no _seed_network_map.",
          "Trusted: as C13; tools/props/c14.py oracle (state stays CLOSED, no attempt after CLOSED, no receive callback after close() returned, "
          "writers closed, no pending task, status trace = state changes, raise/return differential). Theorems closed under the global context.",
